@@ -429,3 +429,32 @@ def rule_cx_radical_lists(ck, repo, R, modules):
                       file=m.relpath, line=line, construct=pat)
         shapes[mname] = (pat, tuple(sorted({c for c, _ in cuts})))
     ck.floor(R, 2)  # one consumer per reader at least (the SMILES reader may parse the block once or once per branch)
+
+
+def rule_allene_reference_choice(ck, repo, R):
+    """writer and reader pick the reference substituent of an allene terminal the same way: first neighbour of the terminal IN WRITTEN ORDER that is in the stereo environment"""
+    ck.rule(R, 'the @/@@ mark of an allene is relative to one substituent per terminal; the writer (MoleculeSmiles._format_atom) and the reader '
+               '(postprocess_molecule) both choose, for each terminal t, the first element of the written-order neighbour list of t (adjacency[t] / order[t]) that '
+               'belongs to the stereo environment. Iterating the environment instead (and testing membership in the neighbour list) picks by the storage '
+               'order of the environment, which depends on how the input was spelled')
+    sites = (('chython.algorithms.smiles:MoleculeSmiles._format_atom', 'adjacency'), ('chython.files.daylight.smiles:postprocess_molecule', 'order'))
+    for fq, seqname in sites:
+        f = repo.func(fq)
+        ck.require(f is not None, f'{fq} not found')
+        picks = []
+        for n in ast.walk(f.node):
+            if isinstance(n, ast.Call) and isinstance(n.func, ast.Name) and n.func.id == 'next' and n.args and isinstance(n.args[0], ast.GeneratorExp):
+                g = n.args[0]
+                if len(g.generators) == 1 and len(g.generators[0].ifs) == 1 and isinstance(g.generators[0].ifs[0], ast.Compare) and \
+                        isinstance(g.generators[0].ifs[0].ops[0], ast.In):
+                    it, cont = g.generators[0].iter, g.generators[0].ifs[0].comparators[0]
+                    names = {src(it), src(cont)}
+                    if any(x.startswith(f'{seqname}[') for x in names):
+                        picks.append((n, it, cont))
+        ck.require(len(picks) >= 2, f'{fq}: the two reference-substituent selections of the allene branch were not found')
+        for n, it, cont in picks:
+            ok = isinstance(it, ast.Subscript) and src(it.value) == seqname and not isinstance(cont, ast.Subscript)
+            ck.decide(ok, R, f'{f.qualname}:{src(n)[:50]}', f'iterates {src(it)}',
+                      f'{f.qualname}: `{src(n)}` iterates `{src(it)}` and tests membership in `{src(cont)}`; the reference substituent must be the first element of '
+                      f'`{seqname}[terminal]` (written order) found in the environment', file=f.file, line=n.lineno, func=f.qualname, construct=src(n))
+    ck.floor(R, 4)
